@@ -111,6 +111,22 @@ def run_case(case, ctx):
 		con.commit()
 		con.close()
 	base = (digest(gdb), digest(gs))
+	# the same directory / file written in another legal way on the command line and in library calls
+	style = case.get('path_style')
+
+	def spell(pth):
+		if style == 'double_slash':
+			return '/' + pth                                  # //tmp/...: two leading slashes name the same place on POSIX
+		if style == 'trailing_slash' and os.path.isdir(pth):
+			return pth + '/'
+		if style == 'dotdot':
+			os.makedirs(os.path.join(d, 'side'), exist_ok=True)
+			return os.path.join(d, 'side', '..', os.path.relpath(pth, d))
+		if style == 'inner_double_slash':
+			return os.path.dirname(pth) + '//' + os.path.basename(pth)
+		return pth
+	dbdir = spell(dbdir)
+	gdb_arg = spell(gdb)
 	kept = []   # open handles kept across steps
 	nq = len(W.query_sigs)
 	qpaths = H.write_genomes(os.path.join(d, 'q'), W.query_contigs, [f'q{i}.fasta' for i in range(nq)])
@@ -186,7 +202,7 @@ def run_case(case, ctx):
 					elif v == 'sig_mismatch':
 						args = ['-d', dbdir, 'query', '-o', out('csv'), '-s', qsig_other]
 					elif v == 'not_fasta':
-						args = ['-d', dbdir, 'query', '-o', out('csv'), '--no-progress', gdb]
+						args = ['-d', dbdir, 'query', '-o', out('csv'), '--no-progress', gdb_arg]
 					else:
 						args = ['-d', dbdir, 'dist', '--use-db', '-o', out('csv')]
 					r = run_cli(args)
@@ -205,14 +221,14 @@ def run_case(case, ctx):
 				elif t == 'lib_edit':
 					from gambit.db import load_genomeset, file_sessionmaker, Genome, Taxon, ReferenceGenomeSet
 					if step['via'] == 'load_genomeset':
-						session, gset = load_genomeset(gdb)
+						session, gset = load_genomeset(gdb_arg)
 					elif step['via'] == 'refdb':
 						from gambit.db.refdb import ReferenceDatabase
 						db = ReferenceDatabase.load_from_dir(dbdir)
 						session, gset = db.session, db.genomeset
 						kept.append(('sigs', db.signatures))
 					else:
-						session = file_sessionmaker(gdb)()
+						session = file_sessionmaker(gdb_arg)()
 						gset = session.query(ReferenceGenomeSet).one()
 					events.append('mutation')
 					n_genomes = session.execute(text('SELECT COUNT(*) FROM genomes')).scalar()
@@ -377,6 +393,8 @@ def run_case(case, ctx):
 		if any(e in ('mutation', 'fail') for e in events[a + 1:b]):
 			nontrivial = True
 	classes.add('gdb_mode=' + mode)
+	if style:
+		classes.add('path_style=' + style)
 	if 'mutation' in events:
 		classes.add('has_mutation_attempt')
 	if 'fail' in events:
@@ -412,7 +430,8 @@ STEP = st.one_of(
 def gen_case(draw, tier):
 	w = draw(Wd.world(max_refs=4, min_refs=2, max_queries=3, min_queries=2, nasty_names=False))
 	steps = draw(st.lists(STEP, min_size=5, max_size=25))
-	return {'kind': 'history', 'world': w, 'steps': steps, 'gdb_mode': draw(st.sampled_from(['default', 'wal', 'default', 'persist', 'vacuum_pagesize', 'wal', 'user_version', 'old_layout', 'extra_objects', 'wal_hot', 'hot_journal']))}
+	return {'kind': 'history', 'world': w, 'steps': steps, 'gdb_mode': draw(st.sampled_from(['default', 'wal', 'default', 'persist', 'vacuum_pagesize', 'wal', 'user_version', 'old_layout', 'extra_objects', 'wal_hot', 'hot_journal'])),
+	        'path_style': draw(st.sampled_from([None, 'double_slash', None, 'trailing_slash', 'dotdot', 'inner_double_slash']))}
 
 
 def strategy(tier):
